@@ -417,7 +417,7 @@ Proof.
     + cbn. apply (J1 o); lia.
     + intros X. congruence.
   - (* no identity key: transient (becomes pending) or already pending *)
-    cbn in Hg. apply negb_true_iff in Hg.
+    clear Hg. assert (Hg : odelf (objs st o) = false) by (apply (g_newd _ _ _ _ _ (c_good _ _ C) o); auto).
     destruct (mem o (snew (autobegin st))) eqn:Em.
     + inversion H; subst r st'. exists gs1. unfold mod_obj.
       assert (Hin : In o (snew (autobegin st))) by (apply mem_In; exact Em).
